@@ -310,15 +310,14 @@ def case_key(case):
 # ----------------------------------------------------------------------------------------
 # evaluation of a batch of cases
 # ----------------------------------------------------------------------------------------
-def evaluate(ctx, group, cases, canary=False):
-    """runs the implementation on every case, evaluates [agree; holds_b] in Coq, registers
-    counts / disagreements / violations.  Returns the list of (case, obs, agree, holds)."""
+def observe(cases, canary=False):
+    """runs the implementation on every case; returns (terms, metas, number of planted canaries)"""
     terms, metas = [], []
     for case in cases:
         obs = run_impl(case)
         terms.append(coq_case(case, obs))
         metas.append((case, obs))
-    n_real = len(terms)
+    planted = 0
     if canary:
         # a deliberately wrong observation: the hall of fame "kept" the worse individual
         c = {'target': ['hof', 1], 'pool': [dict(uid=1, vals=(1.0,), gclass=0, gen=0), dict(uid=2, vals=(0.0,), gclass=0, gen=0)],
@@ -332,20 +331,46 @@ def evaluate(ctx, group, cases, canary=False):
         o2 = run_impl(c2)
         o2[2]['stag'] += 1
         terms.append(coq_case(c2, o2))
-        ctx.canaries += 2
-    # few large shards: coqc start-up (~1 s) dominates small ones
-    shard = min(800, max(300, -(-len(terms) // 16)))      # ~250 MB per coqc at 800 cases
-    res = ctx.coq_cases(group, REQ, FN, terms, 2, shard=shard, case_ty=CASE_TY)
-    if canary:
-        for ag, ho in res[n_real:]:
-            if (ag, ho) == (False, False):
-                ctx.canaries_caught += 1
+        planted = 2
+    return terms, metas, planted
+
+
+def coq_eval(ctx, group, fn, terms, k, shard):
+    """ctx.coq_cases with one retry on smaller shards: a coqc killed by the kernel under memory
+    pressure is not a disagreement"""
+    import time
+    try:
+        return ctx.coq_cases(group, REQ, fn, terms, k, shard=shard, case_ty=CASE_TY)
+    except Exception as ex:
+        if 'coqc failed' not in str(ex) or 'Error' in str(ex):
+            raise
+        ctx.notes.append('coqc was killed / timed out on a shard of group %s; evaluated again in smaller shards' % group)
+        time.sleep(5)
+        return ctx.coq_cases(group, REQ, fn, terms, k, shard=max(100, shard // 4), case_ty=CASE_TY)
+
+
+def evaluate(ctx, group, cases, canary=False):
+    """observe + judge"""
+    return judge(ctx, group, *observe(cases, canary))
+
+
+def judge(ctx, group, terms, metas, planted=0):
+    """evaluates [agree; holds_b] in Coq, registers counts / disagreements / violations.
+    Returns the list of (case, obs, agree, holds)."""
+    n_real = len(metas)
+    ctx.canaries += planted
+    # ~300 MB per coqc at 400 three-update cases; 16 run in parallel
+    shard = min(400, max(200, -(-len(terms) // 16)))
+    res = coq_eval(ctx, group, FN, terms, 2, shard)
+    for ag, ho in res[n_real:]:
+        if (ag, ho) == (False, False):
+            ctx.canaries_caught += 1
     # name the failing clause group of the (first few) violating cases
     bad = [i for i, (ag, ho) in enumerate(res[:n_real]) if not ho][:25]
     why = {}
     if bad:
         try:
-            diag = ctx.coq_cases(group + ' diagnosis', REQ, 'diagnose_case', [terms[i] for i in bad], 3, case_ty=CASE_TY)
+            diag = coq_eval(ctx, group + ' diagnosis', 'diagnose_case', [terms[i] for i in bad], 3, 400)
             names = ('archive contents (k best distinct / best-first / size bound / keys mirror items / Pareto exactness / '
                      'mutual non-domination)', 'best archived fitness got worse', 'keeper counters / improvement flags')
             for i, d in zip(bad, diag):
@@ -402,8 +427,8 @@ def run(ctx):
                 'sequence (up to renaming of individuals) of U updates with populations of <= P individuals, <= N distinct '
                 'individuals over a 3-letter dyadic fitness alphabet (repeats, ties, empty populations; the observations after '
                 'every prefix are compared), for 12 hall-of-fame, 8 (thorough 16) Pareto-front and 10 keeper configurations '
-                '(k 1..4, capacity 0..3, both similarity functions, 1..3 objectives); quick: U2 P2; thorough: U3 P2 N3, U2 P3 N3 '
-                '(not for the 4-kind _individuals_same fronts), U4 P1 N4; random: sequences of <= 30 updates over pools of <= 14 '
+                '(k 1..4, capacity 0..3, both similarity functions, 1..3 objectives); quick: U2 P2; thorough: U2 P2, U3 P2 N3 (not for '
+                'the 4-kind _individuals_same fronts), U2 P3 N3 (hall of fame), U4 P1 N4; random: sequences of <= 30 updates over pools of <= 14 '
                 'individuals incl. anti-chains that fill the front; evaluations = updates compared; distinct = distinct sequence; '
                 'non-trivial = >= 2 individuals shown and a tie, a repeat, more individuals than the capacity or >= 3 individuals')
     ctx.trusted_extra = [
@@ -417,27 +442,41 @@ def run(ctx):
     # (U updates, P individuals per population, N distinct individuals, which configurations)
     every = lambda t: True
     three_kinds = lambda t: not (t[0] == 'pareto' and t[1] == 'same')
-    scopes = ctx.pick([((2, 2, 5), every)],
-                      [((3, 2, 3), every), ((2, 3, 3), three_kinds), ((4, 1, 4), every)])
+    hof_only = lambda t: t[0] == 'hof'
+    scopes = ctx.pick([((2, 2, 4), every)],
+                      [((2, 2, 4), every), ((3, 2, 3), three_kinds), ((2, 3, 3), hof_only), ((4, 1, 4), every)])
     if ctx.scale > 1 and ctx.tier == 'quick':      # escalated search after a disagreement
-        scopes = [((3, 2, 3), three_kinds), ((2, 2, 5), every)]
+        scopes = [((3, 2, 3), hof_only), ((2, 2, 4), every), ((4, 1, 4), every)]
     first = True
-    for scope, want in scopes:
-        gen = exhaustive_cases(ctx, scope, [c for c in cfgs if want(c[0])])
-        group = 'exhaustive U%d P%d N%d' % scope
-        n_batch = 0
-        while True:
-            batch = list(itertools.islice(gen, 12800))    # streamed: memory stays bounded
-            if not batch:
-                break
-            res = evaluate(ctx, group, batch, canary=first)
-            first = False
-            if n_batch == 0:
+    # the implementation is observed on batch i+1 while coqc judges batch i
+    import concurrent.futures
+    with concurrent.futures.ThreadPoolExecutor(max_workers=1) as pool:
+        pending = None
+
+        def collect(fut, sample):
+            res = fut.result()
+            if sample:
                 for case, obs, ag, ho in res[len(res) // 3:len(res) // 3 + 2]:
                     ctx.sample({'case': case, 'observed': obs, 'agree': ag, 'holds': ho})
-            n_batch += 1
-            del res, batch
-        ctx.set_exhaustive(group, True)
+        try:
+            for scope, want in scopes:
+                gen = exhaustive_cases(ctx, scope, [c for c in cfgs if want(c[0])])
+                group = 'exhaustive U%d P%d N%d' % scope
+                n_batch = 0
+                while True:
+                    batch = list(itertools.islice(gen, 6400))    # streamed: memory stays bounded
+                    if not batch:
+                        break
+                    terms, metas, planted = observe(batch, canary=first)
+                    first = False
+                    if pending:
+                        collect(*pending)
+                    pending = (pool.submit(judge, ctx, group, terms, metas, planted), n_batch == 0)
+                    n_batch += 1
+                ctx.set_exhaustive(group, True)
+        finally:
+            if pending:
+                collect(*pending)
     # ---- random longer sequences
     n = ctx.budget(400, 4000)
     cases = [random_case(ctx) for _ in range(n)]
